@@ -4,7 +4,7 @@ import numpy as np
 from harness import common as C
 from harness import zoo as Z
 
-ANCHORS = ["T7pipe"]
+ANCHORS = ["T7pipe", "T4"]
 MODELS = ["Pipe", "PipeCase"]
 RULE = ("pairs of fits on re-laid-out copies of the same numbers: all dimension orders, random feature and sample permutations, partitions of the "
         "features into Dataset variables / list items, other sample_name/feature_name strings, for every model class (order-dependent methods "
@@ -123,9 +123,16 @@ def run_single(ctx, rng, N):
             nlon = 3
         da = base_data(rng, n, nlat, nlon, cplx=sp.cplx, red=sp.ordered)
         k = 2
-        replay = dict(kind="single", cls=name, data=np.asarray(da.values), shape=da.shape)
+        kw = {}
+        if name in ("EOF", "ComplexEOF", "POP") and (i // len(names)) % 2 == 1:
+            # features in very different units (pressure in Pa next to a precipitation flux), standardised: whatever a feature shares
+            # its container with must not matter
+            import xarray as xr
+            da = da * xr.DataArray(10.0 ** rng.integers(-6, 8, size=da.sizes["lon"]), dims=("lon",), coords={"lon": da.lon})
+            kw = dict(standardize=True)
+        replay = dict(kind="single", cls=name, data=np.asarray(da.values), shape=da.shape, kw=kw)
         try:
-            m0 = sp.make(k)
+            m0 = sp.make(k, **kw)
             m0.fit(da, "time")
             r0 = results(m0, "single")
         except Exception as e:
@@ -135,10 +142,10 @@ def run_single(ctx, rng, N):
         # SparsePCA and OPA do not apply the sign convention: compared up to sign / phase
         upto = name in ("SparsePCA", "OPA") or sp.cplx or name == "HilbertEOF"
         for vname, dv in variants(rng, da, sp.ordered):
-            ctx.case(("c07", name, vname, da.shape, i), nontrivial=True, tag="%s/%s" % (name, vname),
-                     sample=dict(cls=name, shape=list(da.shape), variant=vname))
+            ctx.case(("c07", name, vname, da.shape, i), nontrivial=True, tag="%s/%s%s" % (name, vname, "/standardized-mixed-units" if kw else ""),
+                     sample=dict(cls=name, shape=list(da.shape), variant=vname, standardize=bool(kw)))
             try:
-                m1 = sp.make(k)
+                m1 = sp.make(k, **kw)
                 m1.fit(dv, "time")
                 r1 = results(m1, "single")
             except Exception as e:
@@ -149,7 +156,7 @@ def run_single(ctx, rng, N):
         # other internal dimension names
         ctx.case(("c07", name, "names", da.shape, i), nontrivial=True, tag="%s/names" % name)
         try:
-            m2 = sp.make(k, sample_name="smp", feature_name="ftr")
+            m2 = sp.make(k, sample_name="smp", feature_name="ftr", **kw)
             m2.fit(da, "time")
             r2 = results(m2, "single")
             compare(ctx, "C07:%s:names" % name, "%s with sample_name='smp', feature_name='ftr'" % name, r0, r2, dict(replay, variant="names"), upto_sign=upto,
@@ -160,7 +167,7 @@ def run_single(ctx, rng, N):
         if name == "EOF":
             import xeofs as xe
             try:
-                m2 = sp.make(k, sample_name="smp", feature_name="ftr")
+                m2 = sp.make(k, sample_name="smp", feature_name="ftr", **kw)
                 m2.fit(da, "time")
                 ra = xe.single.EOFRotator(n_modes=2).fit(m0)
                 rb = xe.single.EOFRotator(n_modes=2).fit(m2)
